@@ -192,19 +192,21 @@ def impl_tiles(text, line):
     return True
 
 
-def shrink(text, bad):
-    """greedy character deletion keeping `bad(text)`"""
+def shrink(text, bad, budget=150):
+    """greedy character deletion keeping `bad(text)`; at most `budget` evaluations of `bad`"""
     cur = text
     if len(cur) > 4000:
         return cur
+    left = [budget]
     changed = True
-    while changed and len(cur) > 1:
+    while changed and len(cur) > 1 and left[0] > 0:
         changed = False
         step = max(1, len(cur) // 2)
-        while step >= 1:
+        while step >= 1 and left[0] > 0:
             i = 0
-            while i < len(cur):
+            while i < len(cur) and left[0] > 0:
                 cand = cur[:i] + cur[i + step:]
+                left[0] -= 1
                 if cand != cur and bad(cand):
                     cur = cand
                     changed = True
@@ -330,36 +332,13 @@ def p_deep(tier):
 
 
 def canon_debug(s):
-    """derived-Debug text of the Rust AST -> canonical: tag | tag(a,b) | "<hex>" | [a,b] | int   (field names dropped)"""
-    import re as _re
-    ident = _re.compile(r"[A-Za-z_][A-Za-z_0-9]*")
-    field = _re.compile(r"[A-Za-z_][A-Za-z_0-9]*\s*:")
-    num = _re.compile(r"-?[0-9]+")
+    """derived-Debug text of the Rust AST -> canonical: tag | tag(a,b) | "<hex>" | [a,b] | int   (field names dropped,
+    `Name { f: v, .. }` -> `Name(v,..)`); one linear scan, no recursion (the ASTs can be thousands of levels deep)"""
+    ESC = {"n": "\n", "r": "\r", "t": "\t", "0": "\0", "\\": "\\", '"': '"', "'": "'"}
+    out = []
     n = len(s)
     pos = 0
-    ESC = {"n": "\n", "r": "\r", "t": "\t", "0": "\0", "\\": "\\", '"': '"', "'": "'"}
-
-    def ws():
-        nonlocal pos
-        while pos < n and s[pos] in " \n\t":
-            pos += 1
-
-    def seq(close):
-        nonlocal pos
-        items = []
-        while True:
-            ws()
-            if s[pos] == close:
-                pos += 1
-                return items
-            items.append(value())
-            ws()
-            if s[pos] == ",":
-                pos += 1
-
-    def value():
-        nonlocal pos
-        ws()
+    while pos < n:
         c = s[pos]
         if c == '"':
             pos += 1
@@ -378,42 +357,28 @@ def canon_debug(s):
                     buf.append(s[pos])
                     pos += 1
             pos += 1
-            return '"' + "".join(buf).encode("utf-8").hex() + '"'
-        if c == "[":
+            out.append('"' + "".join(buf).encode("utf-8").hex() + '"')
+        elif c in " \n\t":
             pos += 1
-            return "[" + ",".join(seq("]")) + "]"
-        if c == "(":
+        elif c == "{":
+            out.append("(")
             pos += 1
-            return "(" + ",".join(seq(")")) + ")"
-        m = num.match(s, pos)
-        if m:
-            pos = m.end()
-            return m.group(0)
-        m = ident.match(s, pos)
-        name = m.group(0)
-        pos = m.end()
-        ws()
-        if pos < n and s[pos] == "(":
+        elif c == "}":
+            out.append(")")
             pos += 1
-            return name + "(" + ",".join(seq(")")) + ")"
-        if pos < n and s[pos] == "{":
+        elif c.isalpha() or c == "_":
+            j = pos
+            while j < n and (s[j].isalnum() or s[j] == "_"):
+                j += 1
+            if j < n and s[j] == ":":
+                pos = j + 1            # a field name
+            else:
+                out.append(s[pos:j])
+                pos = j
+        else:
+            out.append(c)
             pos += 1
-            items = []
-            while True:
-                ws()
-                if s[pos] == "}":
-                    pos += 1
-                    break
-                m = field.match(s, pos)
-                pos = m.end()
-                items.append(value())
-                ws()
-                if s[pos] == ",":
-                    pos += 1
-            return name + ("(" + ",".join(items) + ")" if items else "")
-        return name
-
-    return value()
+    return "".join(out)
 
 
 def run_both_expr(gv, gmodel, hdr, texts):
@@ -477,7 +442,7 @@ def stage_expr(ctx, rng, gv, gmodel, hdr):
             stats["outcomes"]["err"] += 1
         elif il == "LEXERR":
             stats["outcomes"]["lexerr"] += 1
-        if expr_bad(il, ml) and len(viol) < 20:
+        if expr_bad(il, ml) and len(viol) < 6:
             def bad(sx):
                 (a, b, _), = run_both_expr(gv, gmodel, hdr, [sx])
                 return expr_bad(a, b)
@@ -538,7 +503,7 @@ def stage_lex(ctx, rng, gv, gmodel, hdr):
             stats["tiles_checked"] += 1
         elif il.startswith("ERR"):
             stats["outcomes"]["err"] += 1
-        if what and len(viol) < 20:
+        if what and len(viol) < 6:
             def bad(s):
                 (a, b), = run_both(gv, gmodel, hdr, [s])
                 return a.startswith("PANIC") or a.startswith("ABORT") or a != b or not impl_tiles(s, a)
